@@ -836,6 +836,15 @@ where
             let active = AB::Expr::ZERO - mult_a;
             let sel_mul = active - sel_bool - sel_muladd - sel_horner - sel_add;
 
+            // ── INACTIVE (padding / Horner separator): out = 0 ──────────
+            // A HornerAcc row takes its accumulator from the previous row's `out`. Chains start
+            // after a separator row, which carries no bus interaction: unless its `out` is
+            // pinned to zero the prover could start a chain from any accumulator.
+            for i in 0..D {
+                // 1 - active = 1 + mult_a (mult_a is -1 on active rows, 0 otherwise)
+                builder.assert_zero((AB::Expr::ONE + mult_a) * out[i]);
+            }
+
             // ── ADD: a + b - out = 0 ────────────────────────────────────
             for i in 0..D {
                 builder.assert_zero(sel_add * (a[i] + b[i] - out[i]));
